@@ -100,7 +100,7 @@ def _verify_worker(args):
                     o['model'] = str(ob.model)[:4000]
                     o['goal'] = str(ob.goal)[:1500]
                 out['obligations'].append(o)
-            out['canary'] = verify.canary(fam.world, c)
+            out['canary'] = verify.canary(fam.world, c, rep)
         return out
     except Exception:
         return {'function': cname, 'crash': traceback.format_exc(), 'obligations': [],
